@@ -6,6 +6,13 @@ import Paroxy.Spec.Hints
 import Mathlib.Tactic.IntervalCases
 namespace Paroxy.Hints
 
+variable {O : CharOracle}
+
+/-- `decide`, or evaluation of the character classes on literal (ASCII) characters when the oracle
+occurs in the goal. -/
+macro "cdec" : tactic =>
+  `(tactic| first | decide | simp [isSpacePy, isSpaceRe, isWord] | (simp [isSpacePy, isSpaceRe, isWord] <;> omega))
+
 /-! ### `split("\n")` / `"\n".join` -/
 
 theorem splitNL'_of_noNL (l : Str) (h : '\n' ∉ l) : splitNL' l = (l, []) := by
@@ -66,7 +73,7 @@ theorem noM13_of_infix {a s : Str} (h : noM13 s = true) (ha : a <:+: s) : noM13 
   simp only [noM13, Bool.not_eq_true', ← Bool.not_eq_true, hasInfix_iff] at h ⊢
   exact fun h1 => h (h1.trans ha)
 
-theorem not_isSpacePy_of (c : Char) (h : isSpacePy c = false) : isSpaceRe c = false := by
+theorem not_isSpacePy_of (c : Char) (h : (isSpacePy O) c = false) : (isSpaceRe O) c = false := by
   simp only [isSpacePy, Bool.or_eq_false_iff] at h; exact h.1
 
 /-- What may follow a code line in a decorated text: nothing, a line break, or the spaces that
@@ -161,20 +168,20 @@ theorem partitionAt_code (code : Str) (k : Nat) (rest : Str) (hm : noM13 code = 
 
 /-! ### `str.split()` -/
 
-theorem splitWs'_space (c : Char) (R : Str) (hc : isSpacePy c = true) :
-    splitWs' (c :: R) = ([], splitWs R) := by
+theorem splitWs'_space (c : Char) (R : Str) (hc : (isSpacePy O) c = true) :
+    (splitWs' O) (c :: R) = ([], (splitWs O) R) := by
   simp [splitWs', splitWs, hc]
 
-theorem splitWs_space (c : Char) (R : Str) (hc : isSpacePy c = true) : splitWs (c :: R) = splitWs R := by
+theorem splitWs_space (c : Char) (R : Str) (hc : (isSpacePy O) c = true) : (splitWs O) (c :: R) = (splitWs O) R := by
   simp [splitWs, splitWs'_space c R hc]
 
-theorem splitWs_spaces (n : Nat) (R : Str) : splitWs (List.replicate n ' ' ++ R) = splitWs R := by
+theorem splitWs_spaces (n : Nat) (R : Str) : (splitWs O) (List.replicate n ' ' ++ R) = (splitWs O) R := by
   induction n with
   | zero => simp
-  | succ n ih => rw [List.replicate_succ, List.cons_append, splitWs_space _ _ (by decide), ih]
+  | succ n ih => rw [List.replicate_succ, List.cons_append, splitWs_space _ _ (by cdec), ih]
 
-theorem splitWs'_word (tok R : Str) (h : ∀ c ∈ tok, isSpacePy c = false) :
-    splitWs' (tok ++ R) = (tok ++ (splitWs' R).1, (splitWs' R).2) := by
+theorem splitWs'_word (tok R : Str) (h : ∀ c ∈ tok, (isSpacePy O) c = false) :
+    (splitWs' O) (tok ++ R) = (tok ++ ((splitWs' O) R).1, ((splitWs' O) R).2) := by
   induction tok with
   | nil => simp
   | cons c t ih =>
@@ -182,19 +189,19 @@ theorem splitWs'_word (tok R : Str) (h : ∀ c ∈ tok, isSpacePy c = false) :
     simp [splitWs', hc, ih (fun x hx => h x (List.mem_cons_of_mem _ hx))]
 
 /-- A word followed by nothing or by white space. -/
-theorem splitWs_word (tok R : Str) (h : ∀ c ∈ tok, isSpacePy c = false) (hne : tok ≠ [])
-    (hR : (splitWs' R).1 = []) : splitWs (tok ++ R) = tok :: splitWs R := by
+theorem splitWs_word (tok R : Str) (h : ∀ c ∈ tok, (isSpacePy O) c = false) (hne : tok ≠ [])
+    (hR : ((splitWs' O) R).1 = []) : (splitWs O) (tok ++ R) = tok :: (splitWs O) R := by
   simp [splitWs, splitWs'_word tok R h, hR, hne]
 
 /-! ### `str.strip()` -/
 
-theorem stripPy_id (s : Str) (h1 : ∀ c, s.head? = some c → isSpacePy c = false)
-    (h2 : ∀ c, s.getLast? = some c → isSpacePy c = false) : stripPy s = s := by
-  have e1 : s.dropWhile isSpacePy = s := by
+theorem stripPy_id (s : Str) (h1 : ∀ c, s.head? = some c → (isSpacePy O) c = false)
+    (h2 : ∀ c, s.getLast? = some c → (isSpacePy O) c = false) : (stripPy O) s = s := by
+  have e1 : s.dropWhile (isSpacePy O) = s := by
     cases s with
     | nil => rfl
     | cons c t => simp [List.dropWhile_cons, h1 c rfl]
-  have e2 : s.reverse.dropWhile isSpacePy = s.reverse := by
+  have e2 : s.reverse.dropWhile (isSpacePy O) = s.reverse := by
     cases hs : s.reverse with
     | nil => rfl
     | cons c t =>
@@ -226,13 +233,13 @@ theorem splitAfter_ellipsis (L : Str) (u : Bool) : splitAfter (L ++ ellipsis u) 
   · exact splitAfter_dots3 L
   · exact splitAfter_ell L
 
-structure Clean (L : Str) : Prop where
+structure Clean (O : CharOracle) (L : Str) : Prop where
   ne : L ≠ []
-  word : ∀ c, L.head? = some c → isWord c = true
-  nosp : ∀ c ∈ L, isSpacePy c = false
+  word : ∀ c, L.head? = some c → (isWord O) c = true
+  nosp : ∀ c ∈ L, (isSpacePy O) c = false
   noell : splitAfter L = (L, false)
 
-theorem clean_of (L : Str) (h : cleanLabel L = true) : Clean L := by
+theorem clean_of (L : Str) (h : (cleanLabel O) L = true) : (Clean O) L := by
   cases L with
   | nil => simp [cleanLabel] at h
   | cons c l =>
@@ -243,8 +250,8 @@ theorem clean_of (L : Str) (h : cleanLabel L = true) : Clean L := by
     · exact Prod.ext (splitAfter_false h.2) h.2
 
 /-- `match_label` on a token that starts with a word character. -/
-theorem matchLabel_word (c : Char) (r : Str) (hc : isWord c = true) :
-    matchLabel (c :: r) = some (.none, (splitAfter (c :: r)).1, (splitAfter (c :: r)).2) := by
+theorem matchLabel_word (c : Char) (r : Str) (hc : (isWord O) c = true) :
+    (matchLabel O) (c :: r) = some (.none, (splitAfter (c :: r)).1, (splitAfter (c :: r)).2) := by
   have h1 : c ≠ '-' := by rintro rfl; simp [isWord, Char.isAlphanum, Char.isAlpha, Char.isDigit, Char.isUpper, Char.isLower] at hc
   have h2 : c ≠ '+' := by rintro rfl; simp [isWord, Char.isAlphanum, Char.isAlpha, Char.isDigit, Char.isUpper, Char.isLower] at hc
   have h3 : c ≠ '.' := by rintro rfl; simp [isWord, Char.isAlphanum, Char.isAlpha, Char.isDigit, Char.isUpper, Char.isLower] at hc
@@ -252,35 +259,35 @@ theorem matchLabel_word (c : Char) (r : Str) (hc : isWord c = true) :
   unfold matchLabel
   split <;> simp_all
 
-theorem matchLabel_minus (c : Char) (r : Str) (hc : isWord c = true) :
-    matchLabel ('-' :: c :: r) = some (.minus, (splitAfter (c :: r)).1, (splitAfter (c :: r)).2) := by
+theorem matchLabel_minus (c : Char) (r : Str) (hc : (isWord O) c = true) :
+    (matchLabel O) ('-' :: c :: r) = some (.minus, (splitAfter (c :: r)).1, (splitAfter (c :: r)).2) := by
   simp [matchLabel, hc]
 
-theorem matchLabel_plus (c : Char) (r : Str) (hc : isWord c = true) :
-    matchLabel ('+' :: c :: r) = some (.plus, (splitAfter (c :: r)).1, (splitAfter (c :: r)).2) := by
+theorem matchLabel_plus (c : Char) (r : Str) (hc : (isWord O) c = true) :
+    (matchLabel O) ('+' :: c :: r) = some (.plus, (splitAfter (c :: r)).1, (splitAfter (c :: r)).2) := by
   simp [matchLabel, hc]
 
-theorem matchLabel_dots3 (c : Char) (r : Str) (hc : isWord c = true) :
-    matchLabel ('.' :: '.' :: '.' :: c :: r) = some (.dots, (splitAfter (c :: r)).1, (splitAfter (c :: r)).2) := by
+theorem matchLabel_dots3 (c : Char) (r : Str) (hc : (isWord O) c = true) :
+    (matchLabel O) ('.' :: '.' :: '.' :: c :: r) = some (.dots, (splitAfter (c :: r)).1, (splitAfter (c :: r)).2) := by
   simp [matchLabel, hc]
 
-theorem matchLabel_ell (c : Char) (r : Str) (hc : isWord c = true) :
-    matchLabel (ell :: c :: r) = some (.dots, (splitAfter (c :: r)).1, (splitAfter (c :: r)).2) := by
+theorem matchLabel_ell (c : Char) (r : Str) (hc : (isWord O) c = true) :
+    (matchLabel O) (ell :: c :: r) = some (.dots, (splitAfter (c :: r)).1, (splitAfter (c :: r)).2) := by
   simp [matchLabel, hc, ell]
 
 /-! ### Rendered hints are clean tokens -/
 
-theorem ellipsis_nosp (u : Bool) : ∀ c ∈ ellipsis u, isSpacePy c = false := by
+theorem ellipsis_nosp (u : Bool) : ∀ c ∈ ellipsis u, (isSpacePy O) c = false := by
   cases u <;> simp [ellipsis, dots3, ell, isSpacePy, isSpaceRe]
 
-theorem sign_nosp (p : Bool) : ∀ c ∈ sign p, isSpacePy c = false := by
+theorem sign_nosp (p : Bool) : ∀ c ∈ sign p, (isSpacePy O) c = false := by
   cases p <;> simp [sign, isSpacePy, isSpaceRe]
 
-theorem renderHint_nosp (h : Hint) (hc : Clean h.label) : ∀ c ∈ renderHint h, isSpacePy c = false := by
+theorem renderHint_nosp (h : Hint) (hc : (Clean O) h.label) : ∀ c ∈ renderHint h, (isSpacePy O) c = false := by
   intro c hmem
   obtain ⟨mark, L, sty⟩ := h
-  have hs := sign_nosp sty.plus
-  have he := ellipsis_nosp sty.uni
+  have hs := sign_nosp (O := O) sty.plus
+  have he := ellipsis_nosp (O := O) sty.uni
   have hl := hc.nosp
   cases mark with
   | one s =>
@@ -289,7 +296,7 @@ theorem renderHint_nosp (h : Hint) (hc : Clean h.label) : ∀ c ∈ renderHint h
       · exact hs c h
       · exact hl c h
     · rcases hmem with h | h
-      · subst h; decide
+      · subst h; cdec
       · exact hl c h
   | opn s =>
     cases s <;> simp only [renderHint, List.mem_append, List.mem_cons] at hmem
@@ -298,7 +305,7 @@ theorem renderHint_nosp (h : Hint) (hc : Clean h.label) : ∀ c ∈ renderHint h
       · exact hl c h
       · exact he c h
     · rcases hmem with h | h | h
-      · subst h; decide
+      · subst h; cdec
       · exact hl c h
       · exact he c h
   | cls =>
@@ -307,7 +314,7 @@ theorem renderHint_nosp (h : Hint) (hc : Clean h.label) : ∀ c ∈ renderHint h
     · exact he c h
     · exact hl c h
 
-theorem renderHint_ne (h : Hint) (hc : Clean h.label) : renderHint h ≠ [] := by
+theorem renderHint_ne (h : Hint) (hc : (Clean O) h.label) : renderHint h ≠ [] := by
   obtain ⟨mark, L, sty⟩ := h
   have := hc.ne
   cases mark with
@@ -315,7 +322,7 @@ theorem renderHint_ne (h : Hint) (hc : Clean h.label) : renderHint h ≠ [] := b
   | opn s => cases s <;> simp_all [renderHint]
   | cls => simp_all [renderHint]
 
-theorem renderHints_fst (hs : List Hint) : (splitWs' (renderHints hs)).1 = [] := by
+theorem renderHints_fst (hs : List Hint) : ((splitWs' O) (renderHints hs)).1 = [] := by
   cases hs with
   | nil => rfl
   | cons h t => simp [renderHints, List.replicate_succ, splitWs', isSpacePy, isSpaceRe]
@@ -325,8 +332,8 @@ theorem renderHints_cons (h : Hint) (t : List Hint) :
   simp [renderHints]
 
 /-- `hints.split()` gives back the tokens. -/
-theorem splitWs_renderHints (hs : List Hint) (hc : ∀ h ∈ hs, Clean h.label) :
-    splitWs (renderHints hs) = hs.map renderHint := by
+theorem splitWs_renderHints (hs : List Hint) (hc : ∀ h ∈ hs, (Clean O) h.label) :
+    (splitWs O) (renderHints hs) = hs.map renderHint := by
   induction hs with
   | nil => rfl
   | cons h t ih =>
@@ -335,7 +342,7 @@ theorem splitWs_renderHints (hs : List Hint) (hc : ∀ h ∈ hs, Clean h.label) 
       ih (fun x hx => hc x (List.mem_cons_of_mem _ hx))]
     rfl
 
-theorem renderHints_noNL (hs : List Hint) (hc : ∀ h ∈ hs, Clean h.label) : '\n' ∉ renderHints hs := by
+theorem renderHints_noNL (hs : List Hint) (hc : ∀ h ∈ hs, (Clean O) h.label) : '\n' ∉ renderHints hs := by
   induction hs with
   | nil => simp [renderHints]
   | cons h t ih =>
@@ -374,14 +381,14 @@ theorem hintPart_safe (c : CodeLine) (h : c.hints ≠ []) (Z : Str) : SafeTail (
   | succ k =>
     exact ⟨' ', List.replicate k ' ' ++ (m13 ++ renderHints c.hints) ++ Z, by simp [List.replicate_succ], Or.inl rfl⟩
 
-structure OkCode (c : CodeLine) : Prop where
+structure OkCode (O : CharOracle) (c : CodeLine) : Prop where
   nonl : '\n' ∉ c.code
   nom : noM13 c.code = true
-  notrail : ∀ x, c.code.getLast? = some x → isSpacePy x = false
+  notrail : ∀ x, c.code.getLast? = some x → (isSpacePy O) x = false
   hinted : c.hints ≠ [] → c.code ≠ []
-  clean : ∀ h ∈ c.hints, Clean h.label
+  clean : ∀ h ∈ c.hints, (Clean O) h.label
 
-theorem okCode_of (c : CodeLine) (h : okCode c = true) : OkCode c := by
+theorem okCode_of (c : CodeLine) (h : (okCode O) c = true) : (OkCode O) c := by
   simp only [okCode, Bool.and_eq_true, Bool.or_eq_true, List.all_eq_true, noNL_iff] at h
   obtain ⟨⟨⟨⟨h1, h2⟩, h3⟩, h4⟩, h5⟩ := h
   refine ⟨h1, h2, ?_, ?_, fun x hx => clean_of _ (h5 x hx)⟩
@@ -392,18 +399,18 @@ theorem okCode_of (c : CodeLine) (h : okCode c = true) : OkCode c := by
     · simpa using h4
 
 /-- The hint comment of a code line, tokenised. -/
-theorem hintTokens_renderCode (c : CodeLine) (ok : OkCode c) :
-    hintTokens (renderCode c) = c.hints.map renderHint := by
+theorem hintTokens_renderCode (c : CodeLine) (ok : (OkCode O) c) :
+    (hintTokens O) (renderCode c) = c.hints.map renderHint := by
   by_cases h : c.hints = []
   · simp [renderCode_plain c h, hintTokens, partitionAt_none (hasInfix_m14_false ok.nom), h]
   · obtain ⟨R, hR, hP⟩ := hintPart_eq c h
     rw [renderCode_hinted c h, hP, hintTokens, partitionAt_code _ _ _ ok.nom]
     simp only
-    have : splitWs R = splitWs (renderHints c.hints) := by
-      rw [hR, splitWs_space _ _ (by decide)]
+    have : (splitWs O) R = (splitWs O) (renderHints c.hints) := by
+      rw [hR, splitWs_space _ _ (by cdec)]
     rw [this, splitWs_renderHints _ ok.clean]
 
-theorem renderCode_noNL (c : CodeLine) (ok : OkCode c) : '\n' ∉ renderCode c := by
+theorem renderCode_noNL (c : CodeLine) (ok : (OkCode O) c) : '\n' ∉ renderCode c := by
   by_cases h : c.hints = []
   · rw [renderCode_plain c h]; exact ok.nonl
   · rw [renderCode_hinted c h]
@@ -438,9 +445,9 @@ theorem dropWhile_ne_nil_of_exists {p : Char → Bool} (a : Str) (h : ∃ c ∈ 
 
 /-- Code that is not blank at its end is not followed, white space skipped, by a hint marker. -/
 theorem hintAhead_code (a Y : Str) (ha : a ≠ []) (hm : noM13 a = true)
-    (ht : ∀ x, a.getLast? = some x → isSpacePy x = false) (hY : SafeTail Y) :
-    hintAhead (a ++ Y) = false := by
-  have hex : ∃ c ∈ a, isSpacePy c = false := by
+    (ht : ∀ x, a.getLast? = some x → (isSpacePy O) x = false) (hY : SafeTail Y) :
+    (hintAhead O) (a ++ Y) = false := by
+  have hex : ∃ c ∈ a, (isSpacePy O) c = false := by
     obtain ⟨x, hx⟩ : ∃ x, a.getLast? = some x := by
       cases h : a.getLast? with
       | none => simp at h; exact absurd h ha
@@ -462,17 +469,17 @@ theorem dropWhile_spaces_gen (p : Char → Bool) (hp : p ' ' = true) (n : Nat) (
   | succ n ih =>
     rw [List.replicate_succ, List.cons_append, List.dropWhile_cons_of_pos hp, ih]
 
-theorem dropWhile_spaces (n : Nat) (R : Str) (hR : ∀ c, R.head? = some c → isSpacePy c = false) :
-    (List.replicate n ' ' ++ R).dropWhile isSpacePy = R :=
-  dropWhile_spaces_gen isSpacePy (by decide) n R hR
+theorem dropWhile_spaces (n : Nat) (R : Str) (hR : ∀ c, R.head? = some c → (isSpacePy O) c = false) :
+    (List.replicate n ' ' ++ R).dropWhile (isSpacePy O) = R :=
+  dropWhile_spaces_gen (isSpacePy O) (by cdec) n R hR
 
-theorem dropWhile_spaces_re (n : Nat) (R : Str) (hR : ∀ c, R.head? = some c → isSpaceRe c = false) :
-    (List.replicate n ' ' ++ R).dropWhile isSpaceRe = R :=
-  dropWhile_spaces_gen isSpaceRe (by decide) n R hR
+theorem dropWhile_spaces_re (n : Nat) (R : Str) (hR : ∀ c, R.head? = some c → (isSpaceRe O) c = false) :
+    (List.replicate n ' ' ++ R).dropWhile (isSpaceRe O) = R :=
+  dropWhile_spaces_gen (isSpaceRe O) (by cdec) n R hR
 
 theorem isolatedRest_isolated (n : Nat) (L : Str) :
-    isolatedRest (List.replicate n ' ' ++ (m14 ++ L)) = some L := by
-  have h1 := dropWhile_spaces n (m14 ++ L) (by intro c hc; simp [m14, m13] at hc; subst hc; decide)
+    (isolatedRest O) (List.replicate n ' ' ++ (m14 ++ L)) = some L := by
+  have h1 := dropWhile_spaces (O := O) n (m14 ++ L) (by intro c hc; simp [m14, m13] at hc; subst hc; cdec)
   simp only [isolatedRest, h1]
   simp [m14, m13, List.isPrefixOf_cons_cons]
 
@@ -484,9 +491,9 @@ theorem suffix_getLast? {a s : Str} (h : a <:+ s) (ha : a ≠ []) : a.getLast? =
 
 /-- The marker is not in sight, white space skipped, from the beginning of a piece of code. -/
 theorem m13_ahead_code (a Y : Str) (ha : a ≠ []) (hm : noM13 a = true)
-    (ht : ∀ x, a.getLast? = some x → isSpacePy x = false) (hY : SafeTail Y) :
-    m13.isPrefixOf ((a ++ Y).dropWhile isSpacePy) = false := by
-  have hex : ∃ c ∈ a, isSpacePy c = false := by
+    (ht : ∀ x, a.getLast? = some x → (isSpacePy O) x = false) (hY : SafeTail Y) :
+    m13.isPrefixOf ((a ++ Y).dropWhile (isSpacePy O)) = false := by
+  have hex : ∃ c ∈ a, (isSpacePy O) c = false := by
     obtain ⟨x, hx⟩ : ∃ x, a.getLast? = some x := by
       cases h : a.getLast? with
       | none => simp at h; exact absurd h ha
@@ -496,8 +503,8 @@ theorem m13_ahead_code (a Y : Str) (ha : a ≠ []) (hm : noM13 a = true)
   exact no_m13_prefix _ Y (dropWhile_ne_nil_of_exists a hex)
     (noM13_of_infix hm (List.dropWhile_suffix _).isInfix) hY
 
-theorem isolatedRest_renderCode (c : CodeLine) (ok : OkCode c) : isolatedRest (renderCode c) = none := by
-  have key : m13.isPrefixOf ((renderCode c).dropWhile isSpacePy) = false := by
+theorem isolatedRest_renderCode (c : CodeLine) (ok : (OkCode O) c) : (isolatedRest O) (renderCode c) = none := by
+  have key : m13.isPrefixOf ((renderCode c).dropWhile (isSpacePy O)) = false := by
     by_cases hcode : c.code = []
     · have hh : c.hints = [] := by
         by_cases h : c.hints = []
@@ -514,13 +521,13 @@ theorem isolatedRest_renderCode (c : CodeLine) (ok : OkCode c) : isolatedRest (r
 /-! ### `sub_hints` on a decorated text -/
 
 theorem subHints_code (a Y : Str) (hm : noM13 a = true)
-    (ht : ∀ x, a.getLast? = some x → isSpacePy x = false) (hY : SafeTail Y) :
-    subHints false (a ++ Y) = a ++ subHints false Y := by
+    (ht : ∀ x, a.getLast? = some x → (isSpacePy O) x = false) (hY : SafeTail Y) :
+    (subHints O) false (a ++ Y) = a ++ (subHints O) false Y := by
   induction a with
   | nil => rfl
   | cons c t ih =>
     have h0 := hintAhead_code (c :: t) Y (by simp) hm ht hY
-    have ht' : ∀ x, t.getLast? = some x → isSpacePy x = false := by
+    have ht' : ∀ x, t.getLast? = some x → (isSpacePy O) x = false := by
       intro x hx
       apply ht x
       cases t with
@@ -529,29 +536,29 @@ theorem subHints_code (a Y : Str) (hm : noM13 a = true)
     simp only [List.cons_append] at h0 ⊢
     simp [subHints, h0, ih (noM13_tail hm) ht']
 
-theorem subHints_skip (X R : Str) (h : '\n' ∉ X) : subHints true (X ++ R) = subHints true R := by
+theorem subHints_skip (X R : Str) (h : '\n' ∉ X) : (subHints O) true (X ++ R) = (subHints O) true R := by
   induction X with
   | nil => rfl
   | cons c t ih =>
     have hc : c ≠ '\n' := fun e => h (by simp [e])
     simp [subHints, hc, ih (fun e => h (by simp [e]))]
 
-theorem subHints_true_nil : subHints true [] = [] := rfl
+theorem subHints_true_nil : (subHints O) true [] = [] := rfl
 
-theorem hintPart_noNL (c : CodeLine) (ok : OkCode c) : '\n' ∉ hintPart c := by
+theorem hintPart_noNL (c : CodeLine) (ok : (OkCode O) c) : '\n' ∉ hintPart c := by
   simp only [hintPart, List.mem_append, not_or]
   exact ⟨by simp [List.mem_replicate], by simp [m13], renderHints_noNL _ ok.clean⟩
 
-theorem hintAhead_hintPart (c : CodeLine) (h : c.hints ≠ []) (Z : Str) : hintAhead (hintPart c ++ Z) = true := by
+theorem hintAhead_hintPart (c : CodeLine) (h : c.hints ≠ []) (Z : Str) : (hintAhead O) (hintPart c ++ Z) = true := by
   obtain ⟨R, _, hP⟩ := hintPart_eq c h
   unfold hintAhead
-  rw [hP, List.append_assoc, dropWhile_spaces _ _ (by intro x hx; simp [m14, m13] at hx; subst hx; decide)]
+  rw [hP, List.append_assoc, dropWhile_spaces _ _ (by intro x hx; simp [m14, m13] at hx; subst hx; cdec)]
   simp [m14, m13, List.isPrefixOf_cons_cons]
 
 /-- The hint comment of a line is deleted up to the end of the line. -/
-theorem subHints_hintPart (c : CodeLine) (ok : OkCode c) (h : c.hints ≠ []) (Z : Str) :
-    subHints false (hintPart c ++ Z) = subHints true Z := by
-  have ha := hintAhead_hintPart c h Z
+theorem subHints_hintPart (c : CodeLine) (ok : (OkCode O) c) (h : c.hints ≠ []) (Z : Str) :
+    (subHints O) false (hintPart c ++ Z) = (subHints O) true Z := by
+  have ha := hintAhead_hintPart (O := O) c h Z
   have hn := hintPart_noNL c ok
   obtain ⟨R, _, hP⟩ := hintPart_eq c h
   have : hintPart c = ' ' :: (hintPart c).tail := by rw [hP, List.replicate_succ]; rfl
@@ -560,11 +567,11 @@ theorem subHints_hintPart (c : CodeLine) (ok : OkCode c) (h : c.hints ≠ []) (Z
   simp only [subHints, Bool.false_and, ha, if_true, Bool.false_eq_true, if_false]
   exact subHints_skip _ _ (fun e => hn (List.mem_cons_of_mem _ e))
 
-theorem subHints_nl (b : Bool) (T : Str) (h : hintAhead T = false) :
-    subHints b ('\n' :: T) = '\n' :: subHints false T := by
-  have : hintAhead ('\n' :: T) = false := by
+theorem subHints_nl (b : Bool) (T : Str) (h : (hintAhead O) T = false) :
+    (subHints O) b ('\n' :: T) = '\n' :: (subHints O) false T := by
+  have : (hintAhead O) ('\n' :: T) = false := by
     unfold hintAhead at h ⊢
-    rw [List.dropWhile_cons_of_pos (by decide)]; exact h
+    rw [List.dropWhile_cons_of_pos (by cdec)]; exact h
   cases b <;> simp [subHints, this]
 
 def plainLines (cs : List CodeLine) : List Str := cs.map (·.code)
@@ -572,8 +579,8 @@ def plainLines (cs : List CodeLine) : List Str := cs.map (·.code)
 theorem joinNL_cons_cons (l l2 : Str) (ls : List Str) : joinNL (l :: l2 :: ls) = l ++ '\n' :: joinNL (l2 :: ls) := rfl
 
 /-- No marker is in sight from the beginning of a decorated text or of one of its line breaks. -/
-theorem hintAhead_lines (cs : List CodeLine) (ok : ∀ c ∈ cs, OkCode c) :
-    hintAhead (joinNL (cs.map renderCode)) = false := by
+theorem hintAhead_lines (cs : List CodeLine) (ok : ∀ c ∈ cs, (OkCode O) c) :
+    (hintAhead O) (joinNL (cs.map renderCode)) = false := by
   induction cs with
   | nil => simp [joinNL, hintAhead, m14, m13]
   | cons c t ih =>
@@ -590,7 +597,7 @@ theorem hintAhead_lines (cs : List CodeLine) (ok : ∀ c ∈ cs, OkCode c) :
         simp only [List.map_cons, joinNL_cons_cons, renderCode_plain c hh, hcode, List.nil_append]
         simp only [List.map_cons] at iht
         unfold hintAhead at iht ⊢
-        rw [List.dropWhile_cons_of_pos (by decide)]
+        rw [List.dropWhile_cons_of_pos (by cdec)]
         exact iht
     · cases t with
       | nil =>
@@ -609,13 +616,13 @@ theorem hintAhead_lines (cs : List CodeLine) (ok : ∀ c ∈ cs, OkCode c) :
           exact hintAhead_code c.code _ hcode okc.nom okc.notrail (hintPart_safe c h _)
 
 /-- **`sub_hints` removes exactly the hint comments** of a decorated text without isolated hints. -/
-theorem subHints_lines (cs : List CodeLine) (ok : ∀ c ∈ cs, OkCode c) :
-    subHints false (joinNL (cs.map renderCode)) = joinNL (plainLines cs) := by
+theorem subHints_lines (cs : List CodeLine) (ok : ∀ c ∈ cs, (OkCode O) c) :
+    (subHints O) false (joinNL (cs.map renderCode)) = joinNL (plainLines cs) := by
   induction cs with
   | nil => rfl
   | cons c t ih =>
     have okc := ok c (by simp)
-    have okt : ∀ x ∈ t, OkCode x := fun x hx => ok x (List.mem_cons_of_mem _ hx)
+    have okt : ∀ x ∈ t, (OkCode O) x := fun x hx => ok x (List.mem_cons_of_mem _ hx)
     have iht := ih okt
     cases t with
     | nil =>
